@@ -1078,13 +1078,18 @@ func (w *World) WaitUntil(kind string, ready func() bool) {
 }
 
 // Note records a non-blocking synchronisation operation (Unlock, Done, …) in the process's
-// observation history; it is not a scheduling point (a release only enables others, and they are
-// considered at the next point anyway).
+// observation history. Releases of a lock are followed by a scheduling point.
 func (w *World) Note(kind string) {
 	if p := w.cur; p != nil {
 		p.observe(kind)
 		if w.OnSync != nil && !w.Atomic {
 			w.OnSync(p, kind)
+		}
+		// A release is a scheduling point too: code that goes on using shared data AFTER giving up the lock
+		// (a critical section that is too narrow) misbehaves only if another goroutine gets in right here.
+		if !w.Atomic && strings.HasSuffix(kind, "unlock") {
+			p.OpCount++
+			p.point(Op{Kind: kind + "-done"})
 		}
 	}
 }
